@@ -292,6 +292,157 @@ class UpdateTflag(Contract):
 CONTRACTS += [UpdateTflag(False), UpdateTflag(True)]
 
 
+class IoapiOp(Contract):
+    """the IOAPI wrappers subsetVariables / renameVariable / copy on a coherent IOAPI file (dimension lengths and number of
+    steps ARBITRARY; data variables O3, NO2, NO; every callee executed in line): afterwards VAR-LIST names exactly the data
+    variables of the result (16 characters each, in order), NVARS is their number, the VAR dimension and the variable axis of
+    TFLAG have that length, NLAYS/NROWS/NCOLS equal the dimension lengths, TSTEP is unlimited, the data variables are
+    element-wise the source's and the source file is unchanged."""
+    prop = 'C10'
+    max_paths = 60
+    budget_s = 200
+    ignore = ('call:datetime/pre:valid-fields',)     # whether the EXISTING time flags are valid dates is C12's business
+
+    OPS = {
+        'subsetVariables([O3, NO])': ('subsetVariables', [['O3', 'NO']], {}, ['O3', 'NO'], {}),
+        'subsetVariables([NO2], exclude)': ('subsetVariables', [['NO2']], dict(exclude=True), ['O3', 'NO'], {}),
+        'renameVariable(NO2 -> NOX)': ('renameVariable', ['NO2', 'NOX'], {}, ['O3', 'NO', 'NOX'], {'NOX': 'NO2'}),
+        'copy': ('copy', [], {}, ['O3', 'NO2', 'NO'], {}),
+    }
+
+    def __init__(self, op):
+        self.op = op
+        self.meth, self.args, self.kw, self.want, self.alias = self.OPS[op]
+        # renameVariable is inherited: the base method, run on an IOAPI receiver, dispatches to the IOAPI renameVariables
+        self.target = ('core/_files.py::PseudoNetCDFFile.' if self.meth == 'renameVariable' else IO + '::ioapi_base.') + self.meth
+        self.name = 'ioapi.' + op
+
+    def inputs(self, ctx, I):
+        from pyvc import frontend
+        ctx.modstate[(IO, '_ioapi_defaults')] = {}
+        n = {d: ctx.fresh('n_' + d) for d in ('TSTEP', 'LAY', 'ROW', 'COL')}
+        self.n = n
+        dims = {d: dim_obj(I, d, x, unlimited=(d == 'TSTEP')) for d, x in n.items()}
+        dims['VAR'] = dim_obj(I, 'VAR', 3)
+        dims['DATE-TIME'] = dim_obj(I, 'DATE-TIME', 2)
+        mod = frontend.load('core/_variables.py')
+        cls = I.classref(mod, mod.find('PseudoNetCDFVariable')[0])
+
+        def var(name, vd, shape, kind='f', **atts):
+            a = sym_array(name, shape, kind)
+            a.cls = cls
+            a.attrs.update(dimensions=vd, _ncattrs=tuple(atts), **atts)
+            return a
+        std = ('TSTEP', 'LAY', 'ROW', 'COL')
+        shp = tuple(n[d] for d in std)
+        self.data = {k: var(k, std, shp, long_name=k.ljust(16), units='ppmV'.ljust(16), var_desc=k.ljust(80)) for k in ('O3', 'NO2', 'NO')}
+        self.pre = {k: a.buf.get for k, a in self.data.items()}
+        self.sdate, self.stime, self.tstep = ctx.fresh('SDATE'), ctx.fresh('STIME'), ctx.fresh('TSTEP')
+        tf = var('TFLAG', ('TSTEP', 'VAR', 'DATE-TIME'), (n['TSTEP'], 3, 2), 'i', units='<YYYYDDD,HHMMSS>', long_name='TFLAG'.ljust(16), var_desc='flags'.ljust(80))
+        vs = dict(TFLAG=tf)
+        vs.update(self.data)
+        attrs = {'NVARS': 3, 'VAR-LIST': ''.join(k.ljust(16) for k in ('O3', 'NO2', 'NO')), 'SDATE': self.sdate, 'STIME': self.stime, 'TSTEP': self.tstep,
+                 'NLAYS': n['LAY'], 'NROWS': n['ROW'], 'NCOLS': n['COL'], 'FTYPE': 1}
+        f = pnc_file(I, dimensions=dims, variables=vs, attrs=attrs, relpath=IO, clsname='ioapi_base')
+        self.f = f
+        return dict(self=f)
+
+    def call_args(self, inp):
+        return [inp['self']] + [list(a) if isinstance(a, list) else a for a in self.args], dict(self.kw)
+
+    def requires(self, inp):
+        from pyvc.dt import days_in_year
+        y, j = sym.floordiv(self.sdate, 1000), sym.mod(self.sdate, 1000)
+        h, m, sec = sym.floordiv(self.stime, 10000), sym.mod(sym.floordiv(self.stime, 100), 100), sym.mod(self.stime, 100)
+        return And(*[ge(x, 1) for x in self.n.values()], le(self.n['TSTEP'], 100000), ge(y, 1), le(y, 9000), ge(j, 1), le(j, days_in_year(y)),
+                   ge(self.stime, 0), lt(h, 24), lt(m, 60), lt(sec, 60), gt(self.tstep, 0), lt(sym.mod(sym.floordiv(self.tstep, 100), 100), 60),
+                   lt(sym.mod(self.tstep, 100), 60), le(sym.floordiv(self.tstep, 10000), 1000))
+
+    def small(self, inp):
+        return And(*[le(x, 2) for x in self.n.values()], eq(self.sdate, 2020366), eq(self.stime, 230000), eq(self.tstep, 10000))
+
+    def ensures(self, inp, res, I):
+        if not hasattr(res, 'attrs') or 'variables' not in res.attrs:
+            return [('returns-file', False)]
+        a, vs, d = res.attrs, res.attrs['variables'], res.attrs['dimensions']
+        want = self.want
+        data_names = [k for k in vs if k not in ('TFLAG', 'ETFLAG')]
+        tf = vs.get('TFLAG')
+        out = [('is-a-new-file', res is not self.f),
+               ('data variables of the result', sorted(data_names) == sorted(want)),
+               ('VAR-LIST names exactly the data variables, 16 characters each', isinstance(a.get('VAR-LIST'), str) and len(a['VAR-LIST']) == 16 * len(want)
+                and sorted(a['VAR-LIST'][i:i + 16].strip() for i in range(0, len(a['VAR-LIST']), 16)) == sorted(want)),
+               ('NVARS = number of data variables', eq(a.get('NVARS'), len(want))),
+               ('VAR dimension = NVARS', 'VAR' in d and eq(d['VAR'].attrs['_len'], len(want))),
+               ('TFLAG has one column per data variable', isinstance(tf, SArr) and tf.ndim == 3 and And(eq(tf.shape[0], self.n['TSTEP']), eq(tf.shape[1], len(want)), eq(tf.shape[2], 2))),
+               ('NLAYS/NROWS/NCOLS = dimension lengths', And(eq(a.get('NLAYS'), self.n['LAY']), eq(a.get('NROWS'), self.n['ROW']), eq(a.get('NCOLS'), self.n['COL']),
+                                                           *[eq(d[k].attrs['_len'], x) for k, x in self.n.items() if k in d])),
+               ('TSTEP unlimited', 'TSTEP' in d and eq(d['TSTEP'].attrs['_unlimited'], True)),
+               ('step attribute kept', eq(a.get('TSTEP'), self.tstep))]
+        q = tuple(z3.Int('q%d' % k) for k in range(4))
+        rng = And(*[And(ge(i, 0), lt(i, self.n[dk])) for i, dk in zip(q, ('TSTEP', 'LAY', 'ROW', 'COL'))])
+        for k in want:
+            X = vs.get(k)
+            src = self.alias.get(k, k)
+            if isinstance(X, SArr) and X.ndim == 4:
+                out.append(('%s: element-wise the source variable %s' % (k, src), Implies(rng, eq(X.get(q), self.pre[src](q)))))
+                out.append(('%s: fresh buffer' % k, all(X.buf is not b.buf for b in self.data.values())))
+        out.append(('source file unchanged', And(Implies(rng, And(*[eq(b.buf.get(q), self.pre[k](q)) for k, b in self.data.items()])),
+                                                eq(self.f.attrs.get('NVARS'), 3), self.f.attrs.get('VAR-LIST') == ''.join(k.ljust(16) for k in ('O3', 'NO2', 'NO')),
+                                                sorted(self.f.attrs['variables'].keys()) == ['NO', 'NO2', 'O3', 'TFLAG'])))
+        return out
+
+
+    # -- replay on the real function (generated IOAPI file; O3, NO2, NO stand for its variables V0, V1, V2) ---------------
+    def concretize(self, model, inp):
+        from pyvc.verify import model_value
+        return dict(op=self.op, n={k: model_value(model, v) for k, v in self.n.items()})
+
+    def concretize_without_model(self, inp):
+        return dict(op=self.op, n=dict(TSTEP=3, LAY=2, ROW=3, COL=4))
+
+    def replay(self, c):
+        import numpy as np
+        from rtc import harness as H, ioapi as IOH
+        P = H.real()
+        m = {'O3': 'V0', 'NO2': 'V1', 'NO': 'V2', 'NOX': 'NOX'}
+        tr = lambda x: [m.get(y, y) for y in x] if isinstance(x, list) else m.get(x, x)
+        for n in (c['n'], dict(TSTEP=3, LAY=2, ROW=3, COL=4)):
+            n = {k: int(v) for k, v in n.items()}
+            if not all(1 <= v <= 12 for v in n.values()):
+                continue
+            f = IOH.make_ioapi(P, nt=n['TSTEP'], nz=n['LAY'], ny=n['ROW'], nx=n['COL'], nvars=3, sdate=2020366, stime=230000)
+            before = {k: np.asarray(f.variables[k][...]).copy() for k in ('V0', 'V1', 'V2')}
+            try:
+                g = getattr(f, self.meth)(*[tr(a) for a in self.args], **self.kw)
+            except Exception as e:
+                return False, dict(raised=type(e).__name__, message=str(e)[:160], op=self.op, sizes=n)
+            want = tr(list(self.want))
+            bad = []
+            wf = IOH.ioapi_wf(g)
+            if wf:
+                bad.append('invariant: ' + wf)
+            names = [k for k in g.variables if k not in ('TFLAG', 'ETFLAG')]
+            if sorted(names) != sorted(want):
+                bad.append('variables %r expected %r' % (names, want))
+            for k in want:
+                src = tr(self.alias.get({v: kk for kk, v in m.items()}.get(k, k), k)) if k == 'NOX' else k
+                src = 'V1' if k == 'NOX' else k
+                if k in g.variables and not np.array_equal(np.asarray(g.variables[k][...]), before[src]):
+                    bad.append('%s differs from the source variable %s' % (k, src))
+            for k, b in before.items():
+                if k not in f.variables or not np.array_equal(np.asarray(f.variables[k][...]), b):
+                    bad.append('source variable %s changed' % k)
+            if IOH.ioapi_wf(f):
+                bad.append('source invariant: ' + IOH.ioapi_wf(f))
+            if bad:
+                return False, dict(op=self.op, sizes=n, failed=bad)
+        return True, dict(op=self.op)
+
+
+CONTRACTS += [IoapiOp(k) for k in IoapiOp.OPS]
+
+
 
 def ioapi_ops(f, np):
     """in-domain operations on an IOAPI file: (name, thunk) """
@@ -399,13 +550,14 @@ def bounded_replay(p):
 
 META = dict(
     level='other',
-    technique='updatemeta, getVarlist and updatetflag proved by pyvc (calendar arithmetic with a trusted strftime model, arithmetic hints validated by the solver); '
+    technique='updatemeta, getVarlist, updatetflag and the IOAPI wrappers subsetVariables / renameVariable / copy (every callee in line) proved by pyvc (calendar arithmetic with a trusted strftime model, arithmetic hints validated by the solver); '
               'the full coherence invariant by bounded run-time contract over operation sequences',
     text='Proved: (1) updatemeta, any dimension lengths and stale attribute values: NLAYS/NROWS/NCOLS equal the dimension lengths, TSTEP unlimited, DATE-TIME = 2, variable list '
          'refreshed before the time flags; (2) getVarlist for five VAR-LIST patterns (absent / stale / wrong dimensions / free-form / up to date) on files of arbitrary size: VAR-LIST '
          'names exactly the existing IOAPI data variables at 16 characters each, NVARS is their number, VAR = max(NVARS, 1); (3) updatetflag(overwrite) for ANY start date / time / step '
          'and any numbers of steps and variables: every regenerated flag is a valid (YYYYJJJ, HHMMSS) pair denoting start + t*step in every variable column, SDATE/STIME are the first '
-         'flag and denote the same instant as before. Bounded: the complete ioapi_wf invariant after every operation sequence of the stated bound.',
+         'flag and denote the same instant as before; (4) the IOAPI wrappers subsetVariables (include / exclude), renameVariable and copy on a coherent file of arbitrary size: VAR-LIST names exactly the '
+         'data variables of the result, NVARS / VAR / the variable axis of TFLAG have that number, NLAYS/NROWS/NCOLS = dimension lengths, TSTEP unlimited, data element-wise the source, source unchanged. Bounded: the complete ioapi_wf invariant after every operation sequence of the stated bound.',
     note='inside updatemeta the three callees are assumed frames (each is proved on its own here); the variable names of the getVarlist instances are concrete; '
          'datetime.strftime is a trusted model (inverse of the day-number map). Operation wrappers (slice/apply/eval/stack...) are bounded only.',
     assumptions=["datetime.strftime('%Y%j'/'%H%M%S') as modelled in pyvc/dt.py (trusted); datetime.now() arbitrary"],
